@@ -118,4 +118,15 @@ CHECKS = {
              'exactly whether a busy block is hit (start-up verdict, per-step return value or EdzedCircuitError, '
              'Circuit.error) and the final state of every block; in non-fatal cases no block may keep its guard set.',
         note='The guard is tested before EventCond is evaluated (as the code and the property wording do).'),
+    'C10': dict(
+        level='exploration', design_ref='DESIGN.md 4/C10',
+        technique=PBT + '; brute-force consistency oracle for cyclic boolean networks, evaluation counting by instrumented functions, exact path-count bound for acyclic networks',
+        text='Generated cyclic boolean networks (brute force over all assignments decides whether a consistent state '
+             'exists for each input vector), feedback loops closed through on_output events (inverting / non-inverting) '
+             'and acyclic reconvergent DAGs whose source-to-block path total is within 3 x #blocks; required: '
+             'instability EdzedCircuitError whenever no consistent state exists, at most 3N(+N) evaluations per burst, '
+             'consistent outputs whenever the simulator is idle, never an instability error for the bounded DAGs.',
+        note='Where a consistent state exists for a cyclic network either outcome is accepted. The actual number of '
+             'evaluations of the bounded DAGs reaches at most ~2 x #blocks in the generated cases, so a limit only '
+             'slightly below the documented one would not be noticed.'),
 }
